@@ -167,7 +167,7 @@ impl SimDriver {
             // skip scripted steps whose precondition can never hold any more
             let mut st = self.st.borrow_mut();
             for peer in st.peers.iter_mut() {
-                while let Some(step) = plan.peer.script.get(peer.script_pos) {
+                while let Some(step) = plan.peer.script_of(peer.conn).get(peer.script_pos) {
                     if peer.pre_dead(&step.pre) {
                         peer.script_pos += 1;
                     } else {
@@ -362,7 +362,7 @@ impl SimDriver {
             Act::PeerScript(c) => {
                 let mut st = self.st.borrow_mut();
                 let peer = &mut st.peers[c];
-                let step = plan.peer.script[peer.script_pos].clone();
+                let step = plan.peer.script_of(peer.conn)[peer.script_pos].clone();
                 peer.script_pos += 1;
                 if !step.bytes.is_empty() {
                     if let Some(Pkt::Publish(p)) = &step.pkt
